@@ -25,6 +25,9 @@ IP = "variable_versions::ipfix::"
 def run(ctx, env):
     prog = env.prog("default")
     an = An(prog)
+    ctx.rule("R4.10", "IPFIX templates: every parsed template reaches the cache by an overwriting write on every path, and the template reported in the result is the parsed one (shared with C06 R6.8)")
+    from . import c06 as _c06
+    _c06.rule_template_reaches_cache(ctx, prog, an, "R4.10", only_adt="variable_versions::ipfix::IPFixParser")
     lay = Layouts(prog, an)
     ctx.rule("R5.1", "IPFIX message body = header.length saturating-minus 16; set body = header.length saturating-minus 4 (constants = wire size of the enclosing headers)")
     ctx.rule("R5.2", "set id 2 reaches Template::parse only, id 3 reaches OptionsTemplate::parse only, ids >= 255 reach neither")
